@@ -144,7 +144,7 @@ default_unit_symbol_lut = OrderedDict(
         ("ft", (m_per_ft, dimensions.length, 0.0, r"\rm{ft}", False)),
         ("yd", (0.9144, dimensions.length, 0.0, r"\rm{yd}", False)),
         ("mile", (m_per_mile, dimensions.length, 0.0, r"\rm{mile}", False)),
-        ("nmi", (m_per_mile * 1.1508, dimensions.length, 0.0, r"\rm{nmi}", False)),
+        ("nmi", (1852.0, dimensions.length, 0.0, r"\rm{nmi}", False)),
         (
             "mph",
             (m_per_mile / sec_per_hr, dimensions.velocity, 0.0, r"\rm{mph}", False),
@@ -152,7 +152,7 @@ default_unit_symbol_lut = OrderedDict(
         (
             "kt",
             (
-                m_per_mile * 1.1508 / sec_per_hr,
+                1852.0 / sec_per_hr,
                 dimensions.velocity,
                 0.0,
                 r"\rm{kt}",
